@@ -32,14 +32,15 @@ func init() { core.Register(P{}) }
 
 func (P) ID() string { return "C11" }
 func (P) Rule() string {
-	return "case = one bidirectional stream built by grpc.AsStreamProcessorFactory over recording sinks: HEADERS as an ordered field list (content-type " +
+	return "case = one grpc.AsStreamProcessorFactory value, called once per stream id over recording sinks; mostly one bidirectional stream: HEADERS as an ordered field list (content-type " +
 		"before, between or after 0..3 grpc-encoding fields identity/gzip/deflate/snappy of which the last counts, look-alike field names, content-type " +
 		"variants, Trailers-Only), then the length-prefixed byte stream of 0..n messages (empty..1MiB, compressed flag 0/1, sender's own " +
 		"compression level) cut into DATA frames - every one of the 2^(n-1) cut sets for short streams, all 1- and sampled 2-cut sets for medium, " +
 		"random cuts for long, zero-length frames without END_STREAM at every position (short streams) or sprinkled in - with END_STREAM on the last " +
 		"DATA frame, on a separate empty DATA frame or on trailers, in either or both directions; " +
 		"plus malformed streams (truncated, bad flag bytes, undecodable payloads, unknown encodings), non-gRPC streams, PRIORITY/RST/PUSH frames " +
-		"and the uint32 prefix arithmetic at its boundaries; " +
+		"the uint32 prefix arithmetic at its boundaries; and cases with 2..4 streams (gRPC with their own encodings and non-gRPC, sequential in any " +
+		"order or with interleaved frames) through the case's single factory value; " +
 		"distinct by hash of the op list; non-trivial when a gRPC byte stream carrying at least one message arrives in at least two DATA frames, " +
 		"or a non-gRPC stream carries at least one DATA frame"
 }
@@ -47,6 +48,11 @@ func (P) Rule() string {
 func (P) Nontrivial(ops []string, impl []string) bool {
 	data, pm, sdOnly := 0, 0, 0
 	for i, o := range ops {
+		if strings.HasPrefix(o, "@") { // @<stream id> prefix
+			if k := strings.IndexByte(o, ' '); k > 0 {
+				o = o[k+1:]
+			}
+		}
 		if strings.HasPrefix(o, "data ") {
 			data++
 			if i < len(impl) {
@@ -233,11 +239,23 @@ type dirState struct {
 	fedData   bool // a DATA frame of the gRPC stream has been fed in this direction
 }
 
+// strm is one HTTP/2 stream of the case: the processors the factory built for it, what they and
+// its sinks saw, and the oracle's reading of it.
+type strm struct {
+	sid  int
+	d    [2]*dirState
+	proc [2]h2.Processor
+	grpc bool // oracle's reading: a content-type field announcing gRPC (specGrpc) has been seen ON THIS STREAM
+}
+
+// ex is one case: ONE factory value (as h2.Config holds one), called once per stream id.
 type ex struct {
 	cur       []string
-	d         [2]*dirState
-	proc      [2]h2.Processor
-	grpc      bool // oracle's reading: a content-type field announcing gRPC (specGrpc) has been seen
+	factory   h2.StreamProcessorFactory
+	streams   map[int]*strm
+	creating  *strm  // the stream the factory is being called for
+	on        *strm  // the stream of the current op
+	cross     string // an event was seen on a stream other than the one the op was fed to
 	reportF11 bool
 }
 
@@ -250,7 +268,17 @@ func specGrpc(v string) bool {
 
 type sink struct {
 	e   *ex
+	st  *strm
 	dir int
+}
+
+// tag marks an event seen by the processors or sinks of a stream other than the op's.
+func (e *ex) tag(st *strm) string {
+	if st == e.on {
+		return ""
+	}
+	e.cross = fmt.Sprintf("a frame fed to stream %d produced an event on stream %d", e.on.sid, st.sid)
+	return fmt.Sprintf("x%d:", st.sid)
 }
 
 func conv(hs []hpack.HeaderField) []hf {
@@ -263,59 +291,74 @@ func conv(hs []hpack.HeaderField) []hf {
 
 func (s *sink) Data(data []byte, es bool) error {
 	c := append([]byte{}, data...)
-	s.e.cur = append(s.e.cur, "sd:"+b01(es)+":"+showBytes(c))
-	s.e.d[s.dir].sink = append(s.e.d[s.dir].sink, sinkEv{'d', c, es})
+	s.e.cur = append(s.e.cur, s.e.tag(s.st)+"sd:"+b01(es)+":"+showBytes(c))
+	s.st.d[s.dir].sink = append(s.st.d[s.dir].sink, sinkEv{'d', c, es})
 	return nil
 }
 func (s *sink) Header(hs []hpack.HeaderField, es bool, _ http2.PriorityParam) error {
-	s.e.cur = append(s.e.cur, "sh:"+b01(es)+":"+showHdrs(conv(hs)))
-	s.e.d[s.dir].sink = append(s.e.d[s.dir].sink, sinkEv{'h', []byte(showHdrs(conv(hs))), es})
+	s.e.cur = append(s.e.cur, s.e.tag(s.st)+"sh:"+b01(es)+":"+showHdrs(conv(hs)))
+	s.st.d[s.dir].sink = append(s.st.d[s.dir].sink, sinkEv{'h', []byte(showHdrs(conv(hs))), es})
 	return nil
 }
 func (s *sink) Priority(http2.PriorityParam) error {
-	s.e.cur = append(s.e.cur, "sp")
-	s.e.d[s.dir].sink = append(s.e.d[s.dir].sink, sinkEv{'o', nil, false})
+	s.e.cur = append(s.e.cur, s.e.tag(s.st)+"sp")
+	s.st.d[s.dir].sink = append(s.st.d[s.dir].sink, sinkEv{'o', nil, false})
 	return nil
 }
 func (s *sink) RSTStream(c http2.ErrCode) error {
-	s.e.cur = append(s.e.cur, "sr:"+strconv.Itoa(int(c)))
-	s.e.d[s.dir].sink = append(s.e.d[s.dir].sink, sinkEv{'o', nil, false})
+	s.e.cur = append(s.e.cur, s.e.tag(s.st)+"sr:"+strconv.Itoa(int(c)))
+	s.st.d[s.dir].sink = append(s.st.d[s.dir].sink, sinkEv{'o', nil, false})
 	return nil
 }
 func (s *sink) PushPromise(id uint32, hs []hpack.HeaderField) error {
-	s.e.cur = append(s.e.cur, "su:"+strconv.Itoa(int(id))+":"+showHdrs(conv(hs)))
-	s.e.d[s.dir].sink = append(s.e.d[s.dir].sink, sinkEv{'o', nil, false})
+	s.e.cur = append(s.e.cur, s.e.tag(s.st)+"su:"+strconv.Itoa(int(id))+":"+showHdrs(conv(hs)))
+	s.st.d[s.dir].sink = append(s.st.d[s.dir].sink, sinkEv{'o', nil, false})
 	return nil
 }
 
 // pass is the pass-through grpc.Processor: records, then forwards to the emitter.
 type pass struct {
 	e    *ex
+	st   *strm
 	dir  int
 	next mgrpc.Processor
 }
 
 func (p *pass) Header(hs []hpack.HeaderField, es bool, pr http2.PriorityParam) error {
-	p.e.cur = append(p.e.cur, "ph:"+b01(es)+":"+showHdrs(conv(hs)))
+	p.e.cur = append(p.e.cur, p.e.tag(p.st)+"ph:"+b01(es)+":"+showHdrs(conv(hs)))
 	return p.next.Header(hs, es, pr)
 }
 func (p *pass) Message(data []byte, es bool) error {
 	c := append([]byte{}, data...)
-	p.e.cur = append(p.e.cur, "pm:"+b01(es)+":"+showBytes(c))
-	p.e.d[p.dir].shown = append(p.e.d[p.dir].shown, shownMsg{c, es})
+	p.e.cur = append(p.e.cur, p.e.tag(p.st)+"pm:"+b01(es)+":"+showBytes(c))
+	p.st.d[p.dir].shown = append(p.st.d[p.dir].shown, shownMsg{c, es})
 	return p.next.Message(data, es)
 }
 
 func (P) NewExec() core.Exec {
-	e := &ex{}
-	e.d[0], e.d[1] = &dirState{enc: "identity", encKnown: true}, &dirState{enc: "identity", encKnown: true}
-	sinks := h2.VerifNewProcessors(&sink{e, 0}, &sink{e, 1})
-	f := mgrpc.AsStreamProcessorFactory(func(_ *url.URL, server, client mgrpc.Processor) (mgrpc.Processor, mgrpc.Processor) {
-		return &pass{e, 0, server}, &pass{e, 1, client}
+	e := &ex{streams: map[int]*strm{}}
+	e.factory = mgrpc.AsStreamProcessorFactory(func(_ *url.URL, server, client mgrpc.Processor) (mgrpc.Processor, mgrpc.Processor) {
+		return &pass{e, e.creating, 0, server}, &pass{e, e.creating, 1, client}
 	})
-	u, _ := url.Parse("https://example.com/svc/Method")
-	e.proc[0], e.proc[1] = f(u, sinks)
 	return e
+}
+
+// stream returns the stream with the given id; on first use the case's factory is called for it
+// with fresh recording sinks, as h2.Config does for every new HTTP/2 stream.
+func (e *ex) stream(sid int) *strm {
+	if st, ok := e.streams[sid]; ok {
+		return st
+	}
+	st := &strm{sid: sid}
+	st.d[0], st.d[1] = &dirState{enc: "identity", encKnown: true}, &dirState{enc: "identity", encKnown: true}
+	e.streams[sid] = st
+	sinks := h2.VerifNewProcessors(&sink{e, st, 0}, &sink{e, st, 1})
+	u, _ := url.Parse("https://example.com/svc/Method")
+	e.creating = st
+	st.proc[0], st.proc[1] = e.factory(u, sinks)
+	e.creating = nil
+	core.Count("streams:created")
+	return st
 }
 func (e *ex) Close() {}
 
@@ -354,6 +397,30 @@ func (e *ex) Do(op string) core.Result {
 		return bad
 	}
 	e.cur = nil
+	sid := 1
+	if strings.HasPrefix(t[0], "@") { // @<stream id> <op>: the op is on that stream (default: stream 1)
+		n, err := strconv.Atoi(t[0][1:])
+		if err != nil || n < 0 || len(t) < 2 {
+			return bad
+		}
+		sid, t = n, t[1:]
+	}
+	switch t[0] {
+	case "hdr", "data", "prio", "rst", "push":
+		e.on = e.stream(sid)
+		e.cross = ""
+		r := e.doFrame(t)
+		if e.cross != "" && r.Fail == "" {
+			r.Fail, r.Sig = e.cross, "c11:cross-stream-event"
+		}
+		return r
+	}
+	return e.doOther(t)
+}
+
+// doOther: ops that are not frames of a stream.
+func (e *ex) doOther(t []string) core.Result {
+	bad := core.Result{Impl: "bad-op"}
 	switch t[0] {
 	case "pfx": // pfx <n>: what emitter.Message writes for a payload of n bytes, read back as adapter.Data reads it
 		if len(t) != 2 {
@@ -402,6 +469,14 @@ func (e *ex) Do(op string) core.Result {
 			return core.Result{Impl: "table-mismatch"}
 		}
 		return core.Result{Impl: "ok"}
+	}
+	return bad
+}
+
+// doFrame: one frame on the stream e.on.
+func (e *ex) doFrame(t []string) core.Result {
+	bad := core.Result{Impl: "bad-op"}
+	switch t[0] {
 	case "hdr":
 		if len(t) != 4 || dirOf(t[1]) < 0 || (t[2] != "0" && t[2] != "1") {
 			return bad
@@ -424,7 +499,7 @@ func (e *ex) Do(op string) core.Result {
 		if len(t) != 2 || dirOf(t[1]) < 0 {
 			return bad
 		}
-		err := e.proc[dirOf(t[1])].Priority(http2.PriorityParam{StreamDep: 3, Weight: 7})
+		err := e.on.proc[dirOf(t[1])].Priority(http2.PriorityParam{StreamDep: 3, Weight: 7})
 		return e.other(err, "sp")
 	case "rst":
 		if len(t) != 3 || dirOf(t[1]) < 0 {
@@ -434,7 +509,7 @@ func (e *ex) Do(op string) core.Result {
 		if err != nil || c < 0 {
 			return bad
 		}
-		return e.other(e.proc[dirOf(t[1])].RSTStream(http2.ErrCode(c)), "sr:"+strconv.Itoa(c))
+		return e.other(e.on.proc[dirOf(t[1])].RSTStream(http2.ErrCode(c)), "sr:"+strconv.Itoa(c))
 	case "push":
 		if len(t) != 4 || dirOf(t[1]) < 0 {
 			return bad
@@ -448,7 +523,7 @@ func (e *ex) Do(op string) core.Result {
 		for _, h := range hs {
 			hh = append(hh, hpack.HeaderField{Name: h.n, Value: h.v})
 		}
-		return e.other(e.proc[dirOf(t[1])].PushPromise(uint32(id), hh), "su:"+strconv.Itoa(id)+":"+showHdrs(hs))
+		return e.other(e.on.proc[dirOf(t[1])].PushPromise(uint32(id), hh), "su:"+strconv.Itoa(id)+":"+showHdrs(hs))
 	}
 	return bad
 }
@@ -467,7 +542,7 @@ func (e *ex) other(err error, want string) core.Result {
 }
 
 func (e *ex) header(dir int, hs []hf, es bool) core.Result {
-	d := e.d[dir]
+	d := e.on.d[dir]
 	var hh []hpack.HeaderField
 	for _, h := range hs {
 		hh = append(hh, hpack.HeaderField{Name: h.n, Value: h.v})
@@ -475,15 +550,15 @@ func (e *ex) header(dir int, hs []hf, es bool) core.Result {
 	// the oracle's own reading of the header block: is the stream gRPC (whichever field says so,
 	// wherever it stands), and which encoding does this direction use (the last grpc-encoding field)
 	for _, h := range hs {
-		if h.n == "content-type" && specGrpc(h.v) && !e.grpc {
-			e.grpc = true
+		if h.n == "content-type" && specGrpc(h.v) && !e.on.grpc {
+			e.on.grpc = true
 			if h.v != "application/grpc" {
 				core.Count("hdr:grpc-subtype")
 			}
-			e.d[0].sinkFrom, e.d[1].sinkFrom = len(e.d[0].sink), len(e.d[1].sink)
+			e.on.d[0].sinkFrom, e.on.d[1].sinkFrom = len(e.on.d[0].sink), len(e.on.d[1].sink)
 		}
 	}
-	if e.grpc {
+	if e.on.grpc {
 		for _, h := range hs {
 			if h.n == "grpc-encoding" {
 				switch h.v {
@@ -501,14 +576,14 @@ func (e *ex) header(dir int, hs []hf, es bool) core.Result {
 	if d.dead {
 		return core.Result{Impl: "out-of-model", SkipModel: true}
 	}
-	err := e.proc[dir].Header(hh, es, http2.PriorityParam{})
+	err := e.on.proc[dir].Header(hh, es, http2.PriorityParam{})
 	if err != nil {
 		e.cur = append(e.cur, "err:"+errKind(err))
 		d.dead = true
 	}
 	r := core.Result{Impl: e.line()}
 	want := "sh:" + b01(es) + ":" + showHdrs(hs)
-	if !e.grpc {
+	if !e.on.grpc {
 		core.Count("hdr:non-grpc")
 		if r.Impl != want {
 			r.Fail = fmt.Sprintf("non-gRPC HEADERS not forwarded untouched: %q, want %q", r.Impl, want)
@@ -535,23 +610,23 @@ func (e *ex) header(dir int, hs []hf, es bool) core.Result {
 }
 
 func (e *ex) data(dir int, b []byte, es bool) core.Result {
-	d := e.d[dir]
+	d := e.on.d[dir]
 	if d.dead {
 		return core.Result{Impl: "out-of-model", SkipModel: true}
 	}
-	if e.grpc { // the oracle's reading: only DATA of a stream already announced as gRPC is gRPC
+	if e.on.grpc { // the oracle's reading: only DATA of a stream already announced as gRPC is gRPC
 		d.in = append(d.in, b...)
 		d.fedData = true
 	}
 	d.lastEmpty = len(b) == 0
-	err := e.proc[dir].Data(append([]byte{}, b...), es)
+	err := e.on.proc[dir].Data(append([]byte{}, b...), es)
 	if err != nil {
 		e.cur = append(e.cur, "err:"+errKind(err))
 		d.dead = true
 		core.Count("data:error:" + errKind(err))
 	}
 	r := core.Result{Impl: e.line()}
-	if !e.grpc {
+	if !e.on.grpc {
 		core.Count("data:non-grpc")
 		want := "sd:" + b01(es) + ":" + showBytes(b)
 		if r.Impl != want {
@@ -596,7 +671,7 @@ func trunc(s string) string {
 //
 // Streams that are not a whole number of well-formed messages are outside the statement.
 func (e *ex) judgeEnd(dir int, viaData bool) (string, string) {
-	d := e.d[dir]
+	d := e.on.d[dir]
 	if !d.encKnown {
 		core.Count("oracle:skipped:unknown-encoding")
 		return "", ""
